@@ -261,7 +261,10 @@ class MiniEval:
             return ''.join(out)
         if isinstance(e, ast.Subscript):
             base = self.expr(e.value, env)
-            key = self.expr(e.slice, env)
+            if isinstance(e.slice, ast.Slice):
+                key = slice(*[self.expr(x, env) if x is not None else None for x in (e.slice.lower, e.slice.upper, e.slice.step)])
+            else:
+                key = self.expr(e.slice, env)
             try:
                 return base[key]
             except Exception as ex:
@@ -276,9 +279,10 @@ class MiniEval:
             if isinstance(x, _Unknown):
                 raise Undetermined(x.why)
         if isinstance(f, ast.Name):
-            if f.id in ('int', 'len', 'str', 'bool', 'abs', 'float') and not kwargs:
+            if f.id in ('int', 'len', 'str', 'bool', 'abs', 'float', 'tuple', 'list', 'min', 'max', 'round') and not kwargs:
                 try:
-                    return {'int': int, 'len': len, 'str': str, 'bool': bool, 'abs': abs, 'float': float}[f.id](*args)
+                    return {'int': int, 'len': len, 'str': str, 'bool': bool, 'abs': abs, 'float': float, 'tuple': tuple,
+                            'list': list, 'min': min, 'max': max, 'round': round}[f.id](*args)
                 except Exception as ex:
                     raise Undetermined('%s() failed: %s' % (f.id, ex))
             if f.id == 'divmod' and len(args) == 2:
